@@ -35,6 +35,18 @@ theorem cas_at_most_one_inmem_backend (ops : List HCall) (hnr : NoRestore ops)
   cas_at_most_one [] _ (backendCalls_noRestore ops 0 hnr)
     (backendCalls_fresh ops 0 [] (by simp)) k v hv
 
+/-- **Creations (presented version "") — at most one per lifetime.** As long as no delete of `k` commits,
+    at most one operation presenting the empty version commits on `k`: of any number of racing creators
+    exactly one wins; a second creation needs a committed delete in between. (Stored versions are
+    non-empty: both backends store a decimal.) -/
+theorem creates_at_most_one_per_lifetime (st : Rows) (ops : List HCall) (hnr : NoRestore ops)
+    (hnw : NonEmptyWrites ops) (hst : ∀ r ∈ st, r.version ≠ "") (k : Bytes)
+    (hnd : (trace st ops).all (fun t => !deletesKey k t) = true) :
+    ((trace st ops).filter (committedPresenting k "")).length ≤ 1 :=
+  creates_at_most_one_aux k ops st (st.map (·.version)) hnr hnw
+    (fun r hr => List.mem_map.mpr ⟨r, hr, rfl⟩)
+    (by intro h; obtain ⟨r, hr, e⟩ := List.mem_map.mp h; exact hst r hr e) hnd
+
 /-- **UID is stable.** One operation never changes the uid of a resource that exists before and after. -/
 theorem uid_stable (st : Rows) (c : HCall) (hc : ∀ rs, c ≠ .restore rs) (k : Bytes) (a b : Res)
     (ha : lookup k st = some a) (hb : lookup k (specStep st c).1 = some b) : b.id.uid = a.id.uid :=
@@ -167,6 +179,18 @@ example : (run true PState.init [.lock 0, .lock 1, .commit 0, .commit 1, .publis
     .lock 1, .commit 1, .publish 1, .unlock 1, .dispatch, .readAfterEvent 7]).seen = [(7, [0], [0, 1])] := by decide
 
 end Proto
+
+/-- **Liveness fails (known finding `deadlock:watchlist-vs-restore-commit`).** "A watcher receives a complete
+    initial listing" presupposes that `WatchList` returns. With a restore in the middle it need not: the
+    two lock acquisitions are in opposite order, and after `WatchList` took the publisher lock and
+    `Restoration.Commit` took the store lock neither can ever move again. -/
+theorem restore_watchlist_deadlock_counterexample :
+    ∃ acts, (LockOrder.run ⟨0, 0⟩ acts).w = 1 ∧ (LockOrder.run ⟨0, 0⟩ acts).r = 1 ∧
+      ∀ a, LockOrder.step (LockOrder.run ⟨0, 0⟩ acts) a = LockOrder.run ⟨0, 0⟩ acts :=
+  ⟨[.watch, .restore], by decide, by decide, fun a => by cases a <;> decide⟩
+
+/-- either order alone completes (the model is not stuck by construction) -/
+example : LockOrder.run ⟨0, 0⟩ [.watch, .watch, .watch, .restore, .restore, .restore] = ⟨3, 3⟩ := by decide
 
 /-! ## Part D — watches: complete listing, then the events in commit order -/
 
